@@ -91,6 +91,7 @@ class World:
         self.regs = []          # per instance: [(name, hid)]
         self.shadow = []        # per instance: {name: kind} of traits added with add_trait
         self.current = -1       # target of the running operation (for factories, which get no object)
+        self.shared = {}        # shared id -> one CTrait object handed to add_trait on several instances
         self.cfg = {t["name"]: t for t in case["traits"]}
         self.sub = {o["name"]: o for o in case["sub"]}
         self.classes = self.build_classes()
@@ -262,9 +263,14 @@ class World:
         for ci, cls in enumerate(self.classes):
             cts = cls.__dict__["__class_traits__"]
             rows = []
-            names = sorted(self.name_code(k) for k in cts if 0 <= self.name_code(k) < 999 and k != "trait_added")
+            bts = cls.__dict__["__base_traits__"]      # what class_traits() / traits() / subclasses start from
+            names = sorted(set(self.name_code(k) for k in list(cts) + list(bts)
+                               if 0 <= self.name_code(k) < 999 and k != "trait_added"))
             for n in names:
-                rows.append([n, self.tdef(cts["t%d" % n], n, ci)])
+                ct = cts["t%d" % n] if ("t%d" % n) in cts else bts["t%d" % n]
+                rows.append([n, self.tdef(ct, n, ci)])
+                if ("t%d" % n) not in cts or ("t%d" % n) not in bts:
+                    rows.append([n + 2000, self.tdef(ct, n, ci)])     # defined in only one of the two class dictionaries
             rows.append([-1, self.tdef(cts["trait_added"], -1, ci)])
             out.append(rows)
         return out
@@ -333,6 +339,19 @@ class World:
         i = op[1]
         self.current = i
         obj = self.insts[i]
+        if k == "Introspect":
+            mode = op[2]
+            if mode == 0:
+                obj.copyable_trait_names()
+            elif mode == 1:
+                obj.traits(transient=None)
+            elif mode == 2:
+                obj.trait_names(type="trait")
+            elif mode == 3:
+                obj.traits()
+            else:
+                obj.trait_names()
+            return i, None
         a = "t%d" % op[2]
         if k == "Read":
             ret = getattr(obj, a)
@@ -357,7 +376,12 @@ class World:
             self.regs[i].append([op[2], op[3]])
         elif k == "AddTrait":
             t = op[3]
-            if t["kind"] == "KConst":
+            if t["kind"] == "KConst" and t.get("shared") is not None:
+                key = (t["shared"], t["content"][0])
+                if key not in self.shared:
+                    self.shared[key] = Int(t["content"][0]).as_ctrait()
+                obj.add_trait(a, self.shared[key])      # the very same CTrait object for every instance
+            elif t["kind"] == "KConst":
                 obj.add_trait(a, Int(t["content"][0]))
             else:
                 obj.add_trait(a, List(Int, list(t["content"])))
